@@ -164,6 +164,9 @@ def build(wb: WB, spec: dict):
         wb.out("o1", wb.job({"x": g}, op="copy", name="/C1"))
         wb.out("o2", wb.job({"x": g}, op="copy", name="/C2"))
         exp = [f"data{i}+++" for i in range(n)]
+        if spec.get("e"):  # a third consumer that reads A's output directly (its recovery needs A but none of the B_i)
+            wb.out("o3", wb.job({"x": a}, op="copy", name="/E"))
+            return {"o1": exp, "o2": exp, "o3": [f"data{i}++" for i in range(n)]}
         return {"o1": exp, "o2": exp}
     if k == "filediamond":  # A -> {B, C} -> D over files
         p = wb.inp("a", {"class": "File", "name": "in0.txt", "content": "data0"})
@@ -173,6 +176,12 @@ def build(wb: WB, spec: dict):
         d = wb.job({"b": b, "c": c}, op="pair", name="/D")
         wb.out("o", d)
         return {"o": {"b": "data0+++", "c": "data0+++"}}
+    if k == "filefan":  # A -> {B0..B(k-1)} -> D over files: k consumers of one producer's output
+        p = wb.inp("a", {"class": "File", "name": "in0.txt", "content": "data0"})
+        a = wb.job({"x": p}, op="copy", name="/A")
+        bs = {f"b{i}": wb.job({"x": a}, op="copy", name=f"/B{i}") for i in range(spec["k"])}
+        wb.out("o", wb.job(bs, op="pair", name="/D"))
+        return {"o": {f"b{i}": "data0+++" for i in range(spec["k"])}}
     if k == "fileloop":  # loop whose body is a job over a counter and a file (file copied every iteration)
         p = wb.inp("a", spec.get("start", 0))
         ext = wb.loop({"x": p}, spec["pred"], lambda w, ports: {"x": w.job({"x": ports["x"]}, op="inc", name="/lj")},
@@ -285,8 +294,10 @@ def program_jobs(spec):
         return ["/A/0"] + [f"/B/0.{i}" for i in range(spec["n"])] + ["/C/0"]
     if k == "filediamond":
         return ["/A/0", "/B/0", "/C/0", "/D/0"]
+    if k == "filefan":
+        return ["/A/0"] + [f"/B{i}/0" for i in range(spec["k"])] + ["/D/0"]
     if k == "filescatter2c":
-        return ["/A/0"] + [f"/B/0.{i}" for i in range(spec["n"])] + ["/C1/0", "/C2/0"]
+        return ["/A/0"] + [f"/B/0.{i}" for i in range(spec["n"])] + ["/C1/0", "/C2/0"] + (["/E/0"] if spec.get("e") else [])
     if k == "fileloop":
         n = len(_loop_ref(spec.get("start", 0), spec["pred"], "all"))
         return [f"/lj/0.{i}" for i in range(n)]
